@@ -334,3 +334,45 @@ func sliceKey(v Value) (string, bool) {
 	b.WriteString("]")
 	return b.String(), true
 }
+
+
+// nominalLen: the real length in bytes of a byte string that the engine keeps as ONE opaque chunk, when that
+// length is fixed by its constructor (key encodings, digests, identifiers). len() reports it, so that length
+// checks in the code under test take the branch they take for real; looking inside such a chunk (indexing,
+// slicing at other than its ends) is not modelled and makes the path inconclusive instead of going wrong.
+func nominalLen(v Value) (int, bool) {
+	if v.K != KSlice || v.R == nil {
+		return 0, false
+	}
+	cells := v.R.(*SliceV).S
+	if len(cells) != 1 || cells[0].K != KOpaque {
+		return 0, false
+	}
+	ob, ok := cells[0].R.(*OpaqueBytes)
+	if !ok {
+		return 0, false
+	}
+	if ob.A != nil {
+		switch ob.Tag {
+		case "bin":
+			return 36, true
+		case "mh":
+			return 34, true
+		}
+		return 0, false
+	}
+	if ob.T == nil {
+		return 0, false
+	}
+	switch ob.T.Ctor {
+	case "pubuncomp":
+		return 65, true
+	case "pubraw":
+		return 33, true
+	case "privraw":
+		return 32, true
+	case "cidbytes":
+		return 36, true
+	}
+	return 0, false
+}
